@@ -232,6 +232,8 @@ def builtin_call(rng, env, depth, name=None, force_typed=False):
     sep = ',' if rng.random() < 0.9 else rng.choice([';', '\\'])
     args = []
     sub = 0 if name in RISKY else depth - 1
+    if name in RISKY:
+        return '%s(%s)' % (name, sep.join('' if rng.random() < 0.04 else leaf_arg(rng, env) for _ in range(n)))
     pnames = _FN_PARAMS.get(name, [])
     typed = (force_typed or rng.random() < 0.6) and not env.deny
     for j in range(n):
@@ -250,6 +252,22 @@ def builtin_call(rng, env, depth, name=None, force_typed=False):
 
 def _leafy(text):
     return '(' not in text and '*' not in text and '^' not in text
+
+
+def leaf_arg(rng, env):
+    """A strictly call-free, operator-free argument (for the magnitude-sensitive functions)."""
+    k = rng.randrange(8)
+    if k <= 3:
+        return str(rng.choice([0, 1, 2, 3, 7, 10, 12, 36, 100, 255, 1000, 9999])) if rng.random() < 0.7 else '%d.%d' % (rng.randrange(100), rng.randrange(100))
+    if k == 4:
+        return rng.choice(STRINGS)
+    if k == 5 and env.variables and 'var' not in env.deny:
+        return rng.choice(env.variables)
+    if k == 6 and env.cells and 'cell' not in env.deny:
+        return cell_label(rng)
+    if 'var' in env.deny:
+        return rng.choice(['-1', '-2.5', '0.5', '""'])
+    return rng.choice(['TRUE', 'FALSE', '-1', '-2.5', '0.5', '""'])     # TRUE/FALSE are variable references
 
 
 def custom_call(rng, env, depth):
@@ -459,3 +477,19 @@ def g7_long(rng, env):
     if k == 7:
         return '&'.join(rng.choice(['"a"', 'B2', 'zz_top', '1']) for _ in range(n))
     return '-' * rng.choice([10, 100, 1000]) + '1'
+
+
+# --- G8: inputs that stress the lexer's regular expressions (catastrophic backtracking lives in repeats) ---
+G8_UNITS = ['\\a', '\\"', "\\'", '\\\\', '"a', "'a", 'a"', '""', "''", '$A', 'A$1', '#N', '#N/A', '.', '1.', 'e1', '<>', '>=', 'A1:', ' ', 'a.b',
+            'ab', '\\ ', '\\x y', '1E', '_', 'aA1', '!', '%', '\\n']
+
+
+def g8_regex_stress(rng):
+    unit = rng.choice(G8_UNITS)
+    body = unit * rng.choice([20, 30, 40, 60])
+    if rng.random() < 0.3:
+        body += rng.choice(G8_UNITS) * 3
+    opener = rng.choice(['"', "'", '', '"', '("', 'SUM("', '{"'])
+    closer = rng.choice(['', '', '', '"', "'", ')'])
+    prefix = rng.choice(['', '', '1+', 'A1&', 'SUM(1,', '=', '-', '{1,'])
+    return tame(prefix + opener + body + closer)
